@@ -2548,9 +2548,8 @@ DLLIMPORT cfg_t *cfg_addtsec(cfg_t *cfg, const char *name, const char *title)
 	cfg_opt_t *opt;
 	cfg_value_t *val;
 
-	if (cfg_gettsec(cfg, name, title))
-		return NULL;
-
+	/* one lookup: a second one that fails for want of memory must not
+	 * make an existing title look new */
 	opt = cfg_getopt(cfg, name);
 	if (!opt) {
 		cfg_error(cfg, _("no such option '%s'"), name);
@@ -2560,6 +2559,9 @@ DLLIMPORT cfg_t *cfg_addtsec(cfg_t *cfg, const char *name, const char *title)
 		errno = EINVAL;
 		return NULL;
 	}
+	if (cfg_opt_gettsec(opt, title))
+		return NULL;
+
 	val = cfg_setopt(cfg, opt, title);
 	if (!val)
 		return NULL;
